@@ -5,6 +5,7 @@
 package vos
 
 import (
+	"syscall"
 	"errors"
 	"io"
 	"io/fs"
@@ -96,6 +97,7 @@ var (
 // Reset clears the log; call between executions.  Files that already exist in
 // a directory are picked up lazily (Adopt) when first opened.
 func Reset() {
+	SizeLimit = map[string]int64{}
 	Log = nil
 	nextIno = 0
 	inoOf = map[string]int{}
@@ -205,6 +207,11 @@ func (f *File) ReadAt(b []byte, off int64) (int, error) {
 	point()
 	return f.f.ReadAt(b, off)
 }
+// SizeLimit: files (by cleaned path) that cannot grow beyond a size - a full
+// disk / RLIMIT_FSIZE for one file; a write that would cross it is cut short
+// and fails with ENOSPC.
+var SizeLimit = map[string]int64{}
+
 func (f *File) Write(b []byte) (int, error) {
 	if vsched.Abort {
 		return len(b), nil
@@ -213,6 +220,17 @@ func (f *File) Write(b []byte) (int, error) {
 	off, err := f.f.Seek(0, io.SeekCurrent)
 	if err != nil {
 		return 0, err
+	}
+	if lim, ok := SizeLimit[clean(f.name)]; ok && off+int64(len(b)) > lim {
+		k := lim - off
+		if k < 0 {
+			k = 0
+		}
+		n, _ := f.f.Write(b[:k])
+		if n > 0 {
+			logOp(Op{Kind: OpWrite, Ino: f.ino, Off: off, Data: append([]byte(nil), b[:n]...)})
+		}
+		return n, syscall.ENOSPC
 	}
 	n, err := f.f.Write(b)
 	if n > 0 {
